@@ -267,8 +267,11 @@ NotActivated == {k \in DOMAIN done : Len(k) > 4 /\ SubSeq(k, 1, 4) = "att:" /\ d
 \* the driver's watchdog: a runtime caller (or a plugin operation) never returned
 HungLabel == IF \E i \in DOMAIN E.hung : Len(E.hung[i]) >= 15 /\ SubSeq(E.hung[i], Len(E.hung[i]) - 14, Len(E.hung[i])) = "BlockPluginSync"
              THEN "C08-block-never-granted" ELSE "C07-request-never-returned"
+\* fault sessions: a plugin whose fault took place has been dropped by the end of the run
+FaultyNotDropped == "fired" \in DOMAIN E /\ E.fired /\ E.faulty \notin dead
 TEnd ==
   IF Len(E.hung) > 0 THEN Reject(HungLabel, <<E.hung>>)
+  ELSE IF FaultyNotDropped THEN Reject("C07-failed-plugin-not-dropped", <<E.faulty>>)
   ELSE IF NotActivated # {} THEN Reject("C17-wellformed-not-activated", <<NotActivated>>)
   ELSE IF Len(E.stuck) > 0 THEN Reject("C08-registration-stuck", <<E.stuck>>)
   ELSE IF readers # {} \/ rlock # "" \/ swriter # "" THEN Reject("C08-not-quiescent", <<readers, rlock, swriter>>)
@@ -307,6 +310,7 @@ TraceNext ==
        [] E.ev = "reg.attempt"      -> TRegAttempt
        [] E.ev = "reg.waited"       -> TRegWaited
        [] E.ev = "socket.check"     -> TSocketCheck
+       [] E.ev = "crash"            -> Reject("C07-panic", <<E.text>>)
        [] E.ev = "End"              -> TEnd
        [] OTHER                     -> Skip   \* call, started, leaving, start.failed: no specification step
 
